@@ -110,6 +110,28 @@ def run(ctx, res):
             res.violate("argument_errors", "a file was created or modified although the arguments are wrong", case, ch[:5], {"clause": "no_effect"})
     res.sample({"tool": "moto_sdar", "invocation": "module", "config": "wrong_extension", "args": ["-c", "arc.fd", "b.dat"]})
 
+    # archive names: accepted exactly when what follows the last dot is the flavour's extension, in either case
+    from common import drv, cps, run_cli
+    import disklib as D
+    st = res.stream("archive_names", exhaustive=True)
+    names = ["a.sd", "a.SD", "a.Sd", "a.sD", "a.fd", "a.FD", "a.Fd", "a.sdx", "a.s", "a.d", "a", "a.", ".sd", ".fd", "a.b.sd", "a.sd.bak", "a.sd.", "a..sd",
+             "dir.sd/a", "dir.x/a.fd", "a.sd ", "a. sd", "a.k7", "sd", "fd", "a.dsk", "a.SDD", "x.y.z.FD"]
+    for fl in ("sd", "fd"):
+        answers = drv([f"disk.archivename {fl} {cps(n)}" for n in names])
+        for n, ans in zip(names, answers):
+            d = ctx.fresh_dir()
+            status, out = run_cli(D.cli(fl).run, ["-t", n], cwd=d)
+            accepted = status != "ValueError"       # with a good name the tool goes on and fails to open the (absent) file
+            case = {"flavour": fl, "archive": n}
+            st.see(case)
+            st.compared += 1
+            if (ans == "accepted") != accepted:
+                res.disagree("archive_names", case, ans, status)
+            base = n.rsplit(".", 1)
+            want = len(base) == 2 and base[1].lower() == fl
+            if want != accepted:
+                res.violate("archive_names", "an archive name with the wrong extension is accepted (or a right one refused)", case, status, {"clause": "archive_name"})
+
     # placement
     st = res.stream("placement", exhaustive=True)
     for tool, ext in ARCHIVERS.items():
